@@ -58,6 +58,14 @@ class _ExitTr:
         for k, name in enumerate(params[1:]):
             self.slots[name] = 3 + k
         self.next = 6
+        # every other instance attribute the body mentions gets a slot of its own (in name order, so that the numbering
+        # does not depend on the order of statements); what such an attribute holds when __exit__ starts is decided by
+        # __init__ / __enter__ / earlier uses of the object (SM/AtomicReuse.v), not here
+        for key in sorted(_self_attrs(fn)):
+            if key not in self.slots:
+                self.slots[key] = self.next
+                self.next += 1
+        self.attr_slots = {k: v for k, v in self.slots.items() if k.startswith('self.')}
         self.names = {v: k for k, v in self.slots.items()}
 
     def slot(self, key: str, create: bool, node: ast.AST) -> int:
@@ -104,29 +112,48 @@ class _ExitTr:
         bad = TranslateError(f'{self.where}: unsupported call `{ast.unparse(call)}` (line {call.lineno})')
         if not isinstance(f, ast.Attribute):
             raise bad
-        kw = {k.arg: k.value for k in call.keywords}
-        if isinstance(f.value, ast.Name) and f.value.id in ('os', '_os'):
-            if kw:
+        if any(k.arg is None for k in call.keywords):
+            raise bad
+
+        def bind(params: list[str], optional: int = 0) -> list[ast.expr | None]:
+            """Positional and keyword arguments -> one value per parameter (the last `optional` ones may be missing)."""
+            vals: dict[str, ast.expr] = dict(zip(params, call.args))
+            if len(call.args) > len(params):
                 raise bad
-            if f.attr in ('replace', 'rename') and len(call.args) == 2:
-                return f'(SCall MReplace {self.expr(call.args[0])} [{self.expr(call.args[1])}] false)'
-            if f.attr in ('unlink', 'remove') and len(call.args) == 1:
-                return f'(SCall MUnlink {self.expr(call.args[0])} [] false)'
+            for k in call.keywords:
+                if k.arg not in params or k.arg in vals:
+                    raise bad
+                vals[k.arg] = k.value
+            if any(p not in vals for p in params[:len(params) - optional]):
+                raise bad
+            return [vals.get(p) for p in params]
+
+        if isinstance(f.value, ast.Name) and f.value.id in ('os', '_os'):
+            if f.attr in ('replace', 'rename'):
+                src, dst = bind(['src', 'dst'])
+                return f'(SCall MReplace {self.expr(src)} [{self.expr(dst)}] false)'
+            if f.attr in ('unlink', 'remove'):
+                path, = bind(['path'])
+                return f'(SCall MUnlink {self.expr(path)} [] false)'
             raise bad
         recv = self.expr(f.value)
-        if f.attr == '__exit__' and len(call.args) == 3 and not kw:
-            for a in call.args:
+        if f.attr == '__exit__':
+            for a in bind(['exc_type', 'exc_value', 'traceback']) if call.keywords else call.args:
                 self.expr(a)          # must be known values; a file object's __exit__ closes whatever they are
+            if len(call.args) + len(call.keywords) != 3:
+                raise bad
             return f'(SCall MClose {recv} [] false)'
-        if f.attr == 'close' and not call.args and not kw:
+        if f.attr == 'close':
+            bind([])
             return f'(SCall MClose {recv} [] false)'
-        if f.attr == 'unlink' and not call.args and set(kw) <= {'missing_ok'}:
-            mo = kw.get('missing_ok')
+        if f.attr == 'unlink':
+            mo, = bind(['missing_ok'], optional=1)
             if mo is not None and not (isinstance(mo, ast.Constant) and isinstance(mo.value, bool)):
                 raise bad
             return f'(SCall MUnlink {recv} [] {"true" if mo is not None and mo.value else "false"})'
-        if f.attr in ('replace', 'rename') and len(call.args) == 1 and not kw:
-            return f'(SCall MReplace {recv} [{self.expr(call.args[0])}] false)'
+        if f.attr in ('replace', 'rename'):
+            target, = bind(['target'])
+            return f'(SCall MReplace {recv} [{self.expr(target)}] false)'
         raise bad
 
     def classes(self, t: ast.expr | None) -> str:
@@ -232,10 +259,309 @@ class _ExitTr:
         raise TranslateError(f'{self.where}: unsupported statement `{type(st).__name__}` (line {st.lineno})')
 
 
+def _self_attrs(fn: ast.AST) -> set[str]:
+    """`self.X` mentioned as a value or an assignment target (not `self.m(...)`, a method call)."""
+    called = {id(n.func) for n in ast.walk(fn) if isinstance(n, ast.Call)}
+    return {'self.' + n.attr for n in ast.walk(fn)
+            if isinstance(n, ast.Attribute) and isinstance(n.value, ast.Name) and n.value.id == 'self'
+            and id(n) not in called}
+
+
 def _exit_prog(fn: ast.FunctionDef) -> tuple[str, dict]:
     tr = _ExitTr(fn)
     prog = tr.block(fn.body)
     return prog, {str(k): v for k, v in sorted(tr.names.items())}
+
+
+def _exit_prog_attrs(fn: ast.FunctionDef) -> tuple[str, dict, dict[str, int]]:
+    tr = _ExitTr(fn)
+    prog = tr.block(fn.body)
+    return prog, {str(k): v for k, v in sorted(tr.names.items())}, dict(tr.attr_slots)
+
+
+# ------------------------------------------------------------------------------------------- normalisation: helpers
+SPECIAL = {'__init__', '__enter__', '__exit__', 'make_tempfile'}
+
+
+def _simple_arg(e: ast.expr) -> bool:
+    return isinstance(e, (ast.Name, ast.Constant)) or _key(e) is not None
+
+
+class _Subst(ast.NodeTransformer):
+    def __init__(self, params: dict[str, ast.expr], renames: dict[str, str]) -> None:
+        self.params, self.renames = params, renames
+
+    def visit_Name(self, node: ast.Name) -> ast.AST:
+        if node.id in self.params:
+            if not isinstance(node.ctx, ast.Load):
+                raise TranslateError(f'helper method assigns its parameter `{node.id}`: not inlined')
+            return ast.copy_location(_clone(self.params[node.id]), node)
+        if node.id in self.renames:
+            return ast.copy_location(ast.Name(id=self.renames[node.id], ctx=node.ctx), node)
+        return node
+
+
+def _clone(n: ast.AST) -> ast.AST:
+    import copy
+    return copy.deepcopy(n)
+
+
+def _has_return(n: ast.AST) -> bool:
+    return any(isinstance(x, ast.Return) for x in ast.walk(n))
+
+
+def _tail(stmts: list[ast.stmt], sink, where: str) -> list[ast.stmt]:
+    """Statements of a helper whose `return`s are all in tail position -> the same statements with every
+    `return e` replaced by `sink(e)` (`if c: return A` + fall-through is treated as if/else)."""
+    out: list[ast.stmt] = []
+    for i, st in enumerate(stmts):
+        rest = stmts[i + 1:]
+        if isinstance(st, ast.Return):
+            if rest:
+                raise TranslateError(f'{where}: statements after a return')
+            out += sink(st.value if st.value is not None else ast.Constant(value=None), st)
+            return out
+        if isinstance(st, ast.If) and _has_return(st):
+            # both arms are completed with the statements that follow the `if` (they run when an arm falls through)
+            body = _tail(st.body + ([] if _ends(st.body) else [_clone(r) for r in rest]), sink, where)
+            orelse = _tail(st.orelse + ([] if _ends(st.orelse) else [_clone(r) for r in rest]), sink, where)
+            out.append(ast.copy_location(ast.If(test=st.test, body=body or [ast.Pass()], orelse=orelse), st))
+            return out
+        if isinstance(st, ast.Try) and _has_return(st) and not rest and not any(_has_return(x) for x in st.finalbody) \
+                and not (st.orelse and any(_has_return(x) for x in st.body)):
+            # the try statement is the last one: a return at the end of its body / a handler / its else clause only
+            # leaves the helper (the finally clause runs either way); a return in the body would skip the else clause
+            nt = _clone(st)
+            nt.body = _tail(st.body, sink, where) if any(_has_return(x) for x in st.body) else st.body
+            for h, h0 in zip(nt.handlers, st.handlers):
+                h.body = _tail(h0.body, sink, where) or [ast.Pass()]
+            if st.orelse:
+                nt.orelse = _tail(st.orelse, sink, where)
+            elif not any(_has_return(x) for x in st.body):
+                nt.orelse = sink(ast.Constant(value=None), st)
+            out.append(nt)
+            return out
+        if _has_return(st):
+            raise TranslateError(f'{where}: a return inside `{type(st).__name__}` is not in tail position: not inlined')
+        out.append(st)
+    out += sink(ast.Constant(value=None), stmts[-1] if stmts else None)       # falls off the end: returns None
+    return out
+
+
+def _ends(stmts: list[ast.stmt]) -> bool:
+    """Does every path through the statements end in a return?"""
+    if not stmts:
+        return False
+    last = stmts[-1]
+    if isinstance(last, (ast.Return, ast.Raise)):
+        return True
+    if isinstance(last, ast.If):
+        return _ends(last.body) and _ends(last.orelse)
+    return False
+
+
+def inline_helpers(fn: ast.FunctionDef, methods: dict[str, ast.FunctionDef], depth: int = 0) -> ast.FunctionDef:
+    """Replace `x = self.m(a, ..)`, `self.m(a, ..)` and `return self.m(a, ..)` (m an ordinary method of the same class,
+    arguments plain names / attributes of self / constants) by the body of m, so that the analyses below see the same
+    statements whether or not a piece of the function was extracted into a helper.  Anything that cannot be inlined
+    faithfully is left alone (and then fails closed in the analysis that meets the call)."""
+    counter = [0]
+
+    def expand(call: ast.Call, sink, st: ast.stmt) -> list[ast.stmt] | None:
+        f = call.func
+        if not (isinstance(f, ast.Attribute) and isinstance(f.value, ast.Name) and f.value.id == 'self'):
+            return None
+        m = methods.get(f.attr)
+        if m is None or f.attr in SPECIAL or m is fn:
+            return None
+        if depth > 3:
+            raise TranslateError(f'{fn.name}: helper methods nested too deeply at `{f.attr}`')
+        a = m.args
+        if a.vararg or a.kwarg or a.kwonlyargs or a.posonlyargs or m.decorator_list:
+            return None
+        names = [x.arg for x in a.args][1:]
+        defaults = dict(zip(reversed(names), reversed(a.defaults)))
+        bound: dict[str, ast.expr] = {}
+        for n, v in zip(names, call.args):
+            bound[n] = v
+        if len(call.args) > len(names):
+            return None
+        for k in call.keywords:
+            if k.arg is None or k.arg not in names or k.arg in bound:
+                return None
+            bound[k.arg] = k.value
+        for n in names:
+            if n not in bound:
+                if n not in defaults:
+                    return None
+                bound[n] = defaults[n]
+        if not all(_simple_arg(v) for v in bound.values()):
+            return None
+        inner = inline_helpers(m, methods, depth + 1)
+        counter[0] += 1
+        stores = {x.id for x in ast.walk(inner) if isinstance(x, ast.Name) and isinstance(x.ctx, ast.Store)}
+        if stores & set(names):
+            return None
+        ren = {n: f'_inl{depth}_{counter[0]}_{n}' for n in stores}
+        body = [s for s in inner.body if not (isinstance(s, ast.Expr) and isinstance(s.value, ast.Constant))]
+        body = [_Subst(bound, ren).visit(_clone(s)) for s in body]
+        res = _tail(body, sink, f'{fn.name}: helper {f.attr}')
+        for r in res:
+            for x in ast.walk(r):
+                if not hasattr(x, 'lineno'):
+                    ast.copy_location(x, st)
+            ast.fix_missing_locations(r)
+        return res
+
+    def do_block(stmts: list[ast.stmt]) -> list[ast.stmt]:
+        out: list[ast.stmt] = []
+        for st in stmts:
+            rep = None
+            if isinstance(st, ast.Assign) and len(st.targets) == 1 and isinstance(st.value, ast.Call):
+                tgt = st.targets[0]
+                rep = expand(st.value, lambda e, at, tgt=tgt: [ast.Assign(targets=[_clone(tgt)], value=e, lineno=st.lineno)], st)
+            elif isinstance(st, ast.AnnAssign) and isinstance(st.value, ast.Call):
+                tgt = st.target
+                rep = expand(st.value, lambda e, at, tgt=tgt: [ast.Assign(targets=[_clone(tgt)], value=e, lineno=st.lineno)], st)
+            elif isinstance(st, ast.Expr) and isinstance(st.value, ast.Call):
+                rep = expand(st.value, lambda e, at: [] if isinstance(e, ast.Constant) else [ast.Expr(value=e)], st)
+            elif isinstance(st, ast.Return) and isinstance(st.value, ast.Call):
+                rep = expand(st.value, lambda e, at: [ast.Return(value=e)], st)
+            if rep is not None:
+                out += rep or [ast.copy_location(ast.Pass(), st)]
+                continue
+            for field in ('body', 'orelse', 'finalbody'):
+                sub = getattr(st, field, None)
+                if isinstance(sub, list) and sub and isinstance(sub[0], ast.stmt):
+                    setattr(st, field, do_block(sub))
+            if isinstance(st, ast.Try):
+                for h in st.handlers:
+                    h.body = do_block(h.body)
+            out.append(st)
+        return out
+
+    new = _clone(fn)
+    new.body = do_block(new.body)
+    ast.fix_missing_locations(new)
+    return new
+
+
+# ------------------------------------------------------------------------------------------- normalisation: locals
+PURE_METHODS = {'with_name', 'joinpath', 'format'}
+PURE_FUNCS = {'str', 'Path', 'PurePath'}
+
+
+def inline_locals(fn: ast.FunctionDef) -> ast.FunctionDef:
+    """Substitute locals that are assigned exactly once, at the top level of the function body or of a `for` body, from
+    a side-effect-free expression over constants, the loop variable, attributes of self that the function never
+    assigns, and other such locals (`folder = self.filename.parent`, `name = f'tmp_{i}'`, `mode = 'xb' if .. else 'xt'`),
+    when every use follows the assignment inside the same statement list.  The analyses below then see the same
+    expressions whether or not a sub-expression was given a name.  Anything else is left alone."""
+    fn = _clone(fn)
+    nstore: dict[str, int] = {}
+    for n in ast.walk(fn):
+        if isinstance(n, ast.Name) and isinstance(n.ctx, (ast.Store, ast.Del)):
+            nstore[n.id] = nstore.get(n.id, 0) + 1
+        elif isinstance(n, ast.ExceptHandler) and n.name:
+            nstore[n.name] = nstore.get(n.name, 0) + 2
+        elif isinstance(n, (ast.Global, ast.Nonlocal)):
+            return fn
+    params = {a.arg for a in fn.args.args + fn.args.kwonlyargs + fn.args.posonlyargs}
+    attr_stores = {_key(n) for n in ast.walk(fn) if isinstance(n, ast.Attribute) and isinstance(n.ctx, (ast.Store, ast.Del))}
+    loop_vars = {n.target.id for n in ast.walk(fn) if isinstance(n, ast.For) and isinstance(n.target, ast.Name)}
+
+    def pure(e: ast.AST, names: set[str]) -> bool:
+        if isinstance(e, ast.Constant):
+            return True
+        if isinstance(e, ast.Name):
+            return e.id in names
+        if isinstance(e, ast.Attribute):
+            k = _key(e)
+            if k is not None and k.startswith('self.'):
+                return k not in attr_stores
+            return pure(e.value, names)
+        if isinstance(e, ast.JoinedStr):
+            return all(pure(v, names) for v in e.values)
+        if isinstance(e, ast.FormattedValue):
+            return pure(e.value, names) and (e.format_spec is None or pure(e.format_spec, names))
+        if isinstance(e, ast.BinOp) and isinstance(e.op, (ast.Div, ast.Add, ast.Mod)):
+            return pure(e.left, names) and pure(e.right, names)
+        if isinstance(e, ast.IfExp):
+            return pure(e.test, names) and pure(e.body, names) and pure(e.orelse, names)
+        if isinstance(e, ast.Call) and not e.keywords and all(pure(a, names) for a in e.args):
+            f = e.func
+            if isinstance(f, ast.Attribute) and f.attr in PURE_METHODS:
+                return pure(f.value, names)
+            return isinstance(f, ast.Name) and f.id in PURE_FUNCS
+        return False
+
+    def loads(nodes: list[ast.AST], x: str) -> int:
+        return sum(isinstance(n, ast.Name) and n.id == x and isinstance(n.ctx, ast.Load) for b in nodes for n in ast.walk(b))
+
+    total = {x: loads([fn], x) for x in nstore}
+    changed = True
+    while changed:
+        changed = False
+        bodies: list[tuple[list[ast.stmt], set[str]]] = [(fn.body, set())]
+        bodies += [(n.body, {n.target.id}) for n in ast.walk(fn) if isinstance(n, ast.For) and isinstance(n.target, ast.Name)]
+        for body, extra in bodies:
+            for i, st in enumerate(body):
+                if not (isinstance(st, ast.Assign) and len(st.targets) == 1 and isinstance(st.targets[0], ast.Name)):
+                    continue
+                x = st.targets[0].id
+                if nstore.get(x) != 1 or x in params or x in loop_vars or not pure(st.value, extra):
+                    continue
+                rest = body[i + 1:]
+                if loads(rest, x) != total.get(x, 0) or loads([st.value], x):
+                    continue            # used before the assignment, or outside this statement list
+                sub = _Subst({x: st.value}, {})
+                body[i + 1:] = [sub.visit(r) for r in rest]
+                del body[i]
+                if not body:
+                    body.append(ast.copy_location(ast.Pass(), st))
+                nstore[x] = 0
+                changed = True
+                break
+            if changed:
+                break
+    ast.fix_missing_locations(fn)
+    return fn
+
+
+def tmp_template(e: ast.AST, var: str) -> bool:
+    """Is `e` the name "tmp_<var>" (decimal)?  f'tmp_{i}', 'tmp_' + str(i), 'tmp_%d' % i, 'tmp_{}'.format(i)."""
+    is_var = lambda n: isinstance(n, ast.Name) and n.id == var
+    if isinstance(e, ast.JoinedStr):
+        return (len(e.values) == 2 and isinstance(e.values[0], ast.Constant) and e.values[0].value == 'tmp_'
+                and isinstance(e.values[1], ast.FormattedValue) and is_var(e.values[1].value)
+                and e.values[1].format_spec is None and e.values[1].conversion == -1)
+    if isinstance(e, ast.BinOp) and isinstance(e.op, ast.Add):
+        return (isinstance(e.left, ast.Constant) and e.left.value == 'tmp_' and isinstance(e.right, ast.Call)
+                and isinstance(e.right.func, ast.Name) and e.right.func.id == 'str' and len(e.right.args) == 1
+                and not e.right.keywords and is_var(e.right.args[0]))
+    if isinstance(e, ast.BinOp) and isinstance(e.op, ast.Mod):
+        r = e.right.elts[0] if isinstance(e.right, ast.Tuple) and len(e.right.elts) == 1 else e.right
+        return isinstance(e.left, ast.Constant) and e.left.value in ('tmp_%d', 'tmp_%s', 'tmp_%i') and is_var(r)
+    if isinstance(e, ast.Call) and isinstance(e.func, ast.Attribute) and e.func.attr == 'format':
+        return (isinstance(e.func.value, ast.Constant) and e.func.value.value in ('tmp_{}', 'tmp_{0}')
+                and len(e.args) == 1 and not e.keywords and is_var(e.args[0]))
+    return False
+
+
+def sibling_name(v: ast.AST) -> tuple[ast.AST, bool] | None:
+    """`v` names a file next to the destination: self.filename.with_name(X) (X cannot contain a separator: with_name
+    refuses it), self.filename.parent / X or self.filename.parent.joinpath(X) (X may be a path of its own: the caller
+    must also know what X is).  Returns (X, X is certainly a bare name)."""
+    def is_parent(e: ast.AST) -> bool:
+        return isinstance(e, ast.Attribute) and e.attr == 'parent' and _key(e.value) == 'self.filename'
+    if isinstance(v, ast.Call) and isinstance(v.func, ast.Attribute) and len(v.args) == 1 and not v.keywords:
+        if v.func.attr == 'with_name' and _key(v.func.value) == 'self.filename':
+            return v.args[0], True
+        if v.func.attr == 'joinpath' and is_parent(v.func.value):
+            return v.args[0], False
+    if isinstance(v, ast.BinOp) and isinstance(v.op, ast.Div) and is_parent(v.left):
+        return v.right, False
+    return None
 
 
 def _handler_names(h: ast.ExceptHandler, where: str) -> set[str] | None:
@@ -255,6 +581,26 @@ def _handler_names(h: ast.ExceptHandler, where: str) -> set[str] | None:
 def _tempfile_facts(fn: ast.FunctionDef) -> dict:
     modes: list[tuple[str, int, bool]] = []      # (mode, line, inside a try that catches FileExistsError in a loop)
     sibling = None
+
+    local_vals: dict[str, list[ast.expr]] = {}
+    for n in ast.walk(fn):
+        if isinstance(n, ast.Assign):
+            for t in n.targets:
+                if isinstance(t, ast.Name):
+                    local_vals.setdefault(t.id, []).append(n.value)
+        elif isinstance(n, ast.AnnAssign) and isinstance(n.target, ast.Name) and n.value is not None:
+            local_vals.setdefault(n.target.id, []).append(n.value)
+        elif isinstance(n, (ast.AugAssign, ast.NamedExpr)) and isinstance(n.target, ast.Name):
+            local_vals.setdefault(n.target.id, []).append(ast.Name(id='<computed>', ctx=ast.Load()))
+
+    def mode_values(e: ast.expr, line: int, depth: int = 0) -> list[str]:
+        if isinstance(e, ast.Constant) and isinstance(e.value, str):
+            return [e.value]
+        if isinstance(e, ast.IfExp) and depth < 5:
+            return mode_values(e.body, line, depth + 1) + mode_values(e.orelse, line, depth + 1)
+        if isinstance(e, ast.Name) and e.id in local_vals and depth < 5:
+            return [m for v in local_vals[e.id] for m in mode_values(v, line, depth + 1)]
+        raise TranslateError(f'make_tempfile: open call whose mode `{ast.unparse(e)}` is not a literal (line {line})')
 
     def walk(node, in_loop: bool, catches: bool):
         nonlocal sibling
@@ -288,15 +634,19 @@ def _tempfile_facts(fn: ast.FunctionDef) -> dict:
             f = ch.func
             is_open = (isinstance(f, ast.Attribute) and f.attr == 'open') or (isinstance(f, ast.Name) and f.id == 'open')
             if is_open:
-                margs = [a for a in ch.args if isinstance(a, ast.Constant) and isinstance(a.value, str)]
-                margs += [k.value for k in ch.keywords if k.arg == 'mode' and isinstance(k.value, ast.Constant)]
-                if len(margs) != 1:
-                    raise TranslateError(f'make_tempfile: open call without a literal mode (line {ch.lineno})')
-                modes.append((margs[0].value, ch.lineno, in_loop and catches))
+                # the mode: Path.open(mode, ..) / open(file, mode, ..) / mode=..; a local name is resolved through
+                # every assignment to it in the function (conditional expressions give several possible modes)
+                pos = list(ch.args) if isinstance(f, ast.Attribute) and not (
+                    isinstance(f.value, ast.Name) and f.value.id in ('io', 'builtins', 'os')) else list(ch.args[1:])
+                marg = [k.value for k in ch.keywords if k.arg == 'mode'] or pos[:1]
+                if len(marg) != 1:
+                    raise TranslateError(f'make_tempfile: open call without a mode (line {ch.lineno})')
+                for m in mode_values(marg[0], ch.lineno):
+                    modes.append((m, ch.lineno, in_loop and catches))
         if isinstance(ch, ast.Assign) and len(ch.targets) == 1 and _key(ch.targets[0]) == 'self._temp_name':
-            v = ch.value
-            ok = (isinstance(v, ast.Call) and isinstance(v.func, ast.Attribute) and v.func.attr == 'with_name'
-                  and _key(v.func.value) == 'self.filename')
+            sn = sibling_name(ch.value)
+            loopv = [n.target.id for n in ast.walk(fn) if isinstance(n, ast.For) and isinstance(n.target, ast.Name)]
+            ok = sn is not None and (sn[1] or any(tmp_template(sn[0], lv) for lv in loopv))
             sibling = ok if sibling is None else (sibling and ok)
 
     walk(fn, False, False)
@@ -350,14 +700,9 @@ def _loop_facts(fn: ast.FunctionDef) -> dict:
     # name template: self._temp_name = self.filename.with_name(f'tmp_{<var>}')
     template_ok = False
     for n in ast.walk(loop):
-        if isinstance(n, ast.Assign) and len(n.targets) == 1 and _key(n.targets[0]) == 'self._temp_name' \
-                and isinstance(n.value, ast.Call) and len(n.value.args) == 1:
-            a = n.value.args[0]
-            template_ok = (isinstance(a, ast.JoinedStr) and len(a.values) == 2
-                           and isinstance(a.values[0], ast.Constant) and a.values[0].value == 'tmp_'
-                           and isinstance(a.values[1], ast.FormattedValue) and isinstance(a.values[1].value, ast.Name)
-                           and a.values[1].value.id == var and a.values[1].format_spec is None
-                           and a.values[1].conversion == -1)
+        if isinstance(n, ast.Assign) and len(n.targets) == 1 and _key(n.targets[0]) == 'self._temp_name':
+            sn = sibling_name(n.value)
+            template_ok = sn is not None and tmp_template(sn[0], var)
     # the destination itself is skipped: if self._temp_name == self.filename: continue
     skip_dest = False
     for n in loop.body:
@@ -382,6 +727,141 @@ def _loop_facts(fn: ast.FunctionDef) -> dict:
     other_exits = sum(isinstance(x, (ast.Break, ast.Return)) for x in ast.walk(loop))
     return dict(start=start, unbounded=unbounded, template_ok=template_ok, skip_dest=skip_dest,
                 handler_inert=handler_inert, break_after_open=break_after_open and other_exits == 1)
+
+
+# ------------------------------------------------------------------------------------------- the object across uses
+XVAL = {None: 'VNone', True: 'VTrue', False: 'VFalse'}
+
+
+def _const_val(e: ast.expr) -> str | None:
+    if isinstance(e, ast.Constant) and (e.value is None or isinstance(e.value, bool)):
+        return XVAL[e.value]
+    return None
+
+
+def _object_facts(cls: ast.ClassDef, fns: dict[str, ast.FunctionDef], attr_slots: dict[str, int]) -> dict:
+    """What the instance attributes mentioned by __exit__ hold when __init__ returns, what __enter__/make_tempfile
+    assign on every successful entry, and which of them are assigned nowhere after __init__."""
+    init: dict[str, str | None] = {}
+    for st in cls.body:                    # class-level defaults
+        if isinstance(st, ast.Assign) and len(st.targets) == 1 and isinstance(st.targets[0], ast.Name):
+            init['self.' + st.targets[0].id] = _const_val(st.value)
+        elif isinstance(st, ast.AnnAssign) and isinstance(st.target, ast.Name) and st.value is not None:
+            init['self.' + st.target.id] = _const_val(st.value)
+    fi = fns.get('__init__')
+    if fi is None:
+        raise TranslateError('AtomicWriter.__init__ not found')
+    top: set[str] = set()
+    for st in fi.body:
+        tv = None
+        if isinstance(st, ast.Assign) and len(st.targets) == 1:
+            tv = (st.targets[0], st.value)
+        elif isinstance(st, ast.AnnAssign) and st.value is not None:
+            tv = (st.target, st.value)
+        if tv is not None and (_key(tv[0]) or '').startswith('self.'):
+            k = _key(tv[0])
+            # the destination is whatever __init__ stores in self.filename (an abstract value of its own)
+            init[k] = 'VDest' if k == 'self.filename' else _const_val(tv[1])
+            top.add(k)
+    for n in ast.walk(fi):                 # assigned somewhere deeper in __init__ (conditionally): value not known
+        if isinstance(n, (ast.Assign, ast.AnnAssign, ast.AugAssign)):
+            for t in (n.targets if isinstance(n, ast.Assign) else [n.target]):
+                for x in ast.walk(t):
+                    k = _key(x)
+                    if k and k.startswith('self.') and k not in top:
+                        init[k] = None
+    # entry: the top-level statements of __enter__ in order, the call self.make_tempfile() expanded in place
+    enter: dict[str, str] = {}
+    ent, mk = fns['__enter__'], fns['make_tempfile']
+
+    def stores(node: ast.AST) -> set[str]:
+        return {k for n in ast.walk(node) if isinstance(n, ast.Attribute) and isinstance(n.ctx, (ast.Store, ast.Del))
+                for k in [_key(n)] if k}
+
+    def scan(body: list[ast.stmt], in_enter: bool) -> None:
+        for st in body:
+            if st is not body[-1] and any(isinstance(x, ast.Return) for x in ast.walk(st)):
+                break      # an early return: what follows is not executed on every entry
+            if in_enter and isinstance(st, ast.Expr) and isinstance(st.value, ast.Call) \
+                    and _key(st.value.func) == 'self.make_tempfile' and not st.value.args and not st.value.keywords:
+                scan(mk.body, False)
+                continue
+            if isinstance(st, ast.Assign) and len(st.targets) == 1 and (_key(st.targets[0]) or '').startswith('self.'):
+                v = _const_val(st.value)
+                k = _key(st.targets[0])
+                if v is not None:
+                    enter[k] = v
+                else:
+                    enter.pop(k, None)
+                continue
+            for k in stores(st):       # assigned somewhere inside a compound statement: value not known ...
+                enter.pop(k, None)
+            if isinstance(st, ast.For) and not in_enter:
+                # ... except in the temp-name loop, which is left only by the `break` after the open (obligation
+                # temp_loop_retries_only_on_file_exists): the name assigned before the attempt and the handle assigned
+                # from the open call are bound on every entry
+                for b in st.body:
+                    if isinstance(b, ast.Assign) and len(b.targets) == 1 and _key(b.targets[0]) == 'self._temp_name' \
+                            and sibling_name(b.value) is not None:
+                        enter['self._temp_name'] = 'VTName'
+                    if isinstance(b, ast.Try):
+                        binds = [x for t in b.body for x in ast.walk(t)
+                                 if isinstance(x, ast.Assign) and len(x.targets) == 1 and _key(x.targets[0]) == 'self.temp']
+                        if binds and all(any(isinstance(c, ast.Call) and isinstance(c.func, (ast.Attribute, ast.Name))
+                                             and (c.func.attr if isinstance(c.func, ast.Attribute) else c.func.id) == 'open'
+                                             for c in ast.walk(x.value)) for x in binds):
+                            enter['self.temp'] = 'VTemp'
+
+    scan(ent.body, True)
+    # constants: attributes that no method other than __init__ assigns (or deletes)
+    assigned: set[str] = set()
+    for name, f in fns.items():
+        if name == '__init__':
+            continue
+        for n in ast.walk(f):
+            if isinstance(n, ast.Attribute) and isinstance(n.ctx, (ast.Store, ast.Del)):
+                k = _key(n)
+                if k:
+                    assigned.add(k)
+            if isinstance(n, ast.Call) and isinstance(n.func, ast.Name) and n.func.id in ('setattr', 'delattr', 'vars'):
+                raise TranslateError(f'AtomicWriter.{name}: {n.func.id}() on the writer object (line {n.lineno})')
+            if isinstance(n, ast.Attribute) and n.attr == '__dict__':
+                raise TranslateError(f'AtomicWriter.{name}: __dict__ of the writer object is used (line {n.lineno})')
+    order = sorted(attr_slots, key=lambda k: attr_slots[k])
+    return dict(attrs=[attr_slots[k] for k in order], names=order,
+                init=[init.get(k) for k in order],
+                enter=[[attr_slots[k], v] for k, v in sorted(enter.items(), key=lambda kv: attr_slots.get(kv[0], 99))
+                       if k in attr_slots],
+                const=[attr_slots[k] for k in order if k not in assigned])
+
+
+def _enter_ok(fn: ast.FunctionDef) -> bool:
+    """__enter__ creates the temp file (calls self.make_tempfile() at its top level, unconditionally) and hands out the
+    temp handle (`return self.temp` / `return self.temp.__enter__()`, possibly through a local alias)."""
+    body = [s for s in fn.body if not (isinstance(s, ast.Expr) and isinstance(s.value, ast.Constant))]
+    made = False
+    alias: set[str] = set()
+    for st in body:
+        if isinstance(st, ast.Expr) and isinstance(st.value, ast.Call) and _key(st.value.func) == 'self.make_tempfile':
+            made = True
+        elif isinstance(st, ast.Assign) and len(st.targets) == 1 and isinstance(st.targets[0], ast.Name) \
+                and _key(st.value) == 'self.temp' and made:
+            alias.add(st.targets[0].id)
+        elif isinstance(st, ast.Return) and made and st.value is not None:
+            v = st.value
+            if isinstance(v, ast.Call) and isinstance(v.func, ast.Attribute) and v.func.attr == '__enter__' and not v.args:
+                v = v.func.value
+            return _key(v) == 'self.temp' or (isinstance(v, ast.Name) and v.id in alias)
+        elif isinstance(st, (ast.Assert, ast.Pass, ast.AnnAssign)):
+            continue
+        elif isinstance(st, ast.Assign) and all(isinstance(t, ast.Name) for t in st.targets):
+            continue
+        elif isinstance(st, ast.Assign) and len(st.targets) == 1 and (_key(st.targets[0]) or '').startswith('self.') \
+                and _const_val(st.value) is not None:
+            continue       # a flag (re)set on entry: judged through o_enter (SM/AtomicReuse.v)
+        else:
+            return False
+    return False
 
 
 # ------------------------------------------------------------------------------------------- bsp.py census
@@ -515,25 +995,55 @@ def translate() -> tuple[str, dict]:
     for need in ('make_tempfile', '__enter__', '__exit__'):
         if need not in fns:
             raise TranslateError(f'AtomicWriter.{need} not found')
-    prog, slot_names = _exit_prog(fns['__exit__'])
+    raw_digests = {n: ast_digest(f) for n, f in fns.items()}
+    # normalisation: calls of ordinary methods of the class are replaced by their bodies
+    for name in ('make_tempfile', '__enter__', '__exit__'):
+        fns[name] = inline_helpers(fns[name], fns)
+    # a call that could not be inlined hides code from the analyses of make_tempfile / __enter__ (an open with another
+    # mode, an assignment to an attribute): fail closed.  (__exit__: every call is judged by _ExitTr.call.)
+    mod_funcs = {n.name for n in tree.body if isinstance(n, (ast.FunctionDef, ast.AsyncFunctionDef))}
+    for name in ('make_tempfile', '__enter__'):
+        for c in ast.walk(fns[name]):
+            if not isinstance(c, ast.Call):
+                continue
+            k = _key(c.func) or ''
+            if k.startswith('self.') and k[5:] in fns and not (name == '__enter__' and k == 'self.make_tempfile'):
+                raise TranslateError(f'AtomicWriter.{name}: the call of the method `{k}` could not be inlined '
+                                     f'(line {c.lineno}): its body is hidden from the analysis')
+            if isinstance(c.func, ast.Name) and c.func.id in mod_funcs:
+                raise TranslateError(f'AtomicWriter.{name}: calls the module-level function `{c.func.id}` '
+                                     f'(line {c.lineno}): its body is not analysed')
+    # ... and single-assignment locals of make_tempfile by their defining expressions
+    fns['make_tempfile'] = inline_locals(fns['make_tempfile'])
+    prog, slot_names, attr_slots = _exit_prog_attrs(fns['__exit__'])
     tf = _tempfile_facts(fns['make_tempfile'])
     # __enter__ must create the temp file and hand out the temp handle
-    ent_src = [ast.unparse(s) for s in fns['__enter__'].body if not (isinstance(s, ast.Expr) and isinstance(s.value, ast.Constant))]
-    enter_ok = any('make_tempfile()' in s for s in ent_src) and any(s.startswith('return self.temp') for s in ent_src)
-    if not enter_ok:
-        raise TranslateError(f'AtomicWriter.__enter__ not recognised: {ent_src}')
+    if not _enter_ok(fns['__enter__']):
+        raise TranslateError('AtomicWriter.__enter__ not recognised: '
+                             + '; '.join(ast.unparse(s) for s in fns['__enter__'].body)[:200])
+    obj = _object_facts(cls, fns, attr_slots)
+    opt = lambda v: f'Some {v}' if v is not None else 'None'
     bsp = _bsp_census(ast.parse(src_text('bsp.py')))
     b = lambda x: 'true' if x else 'false'
     writes_ok = all(w[2] in ('handle', 'bytesio', 'deferred') for w in bsp['writes'])
     lines = [
         '(* GENERATED by translate/c12_atomic.py from src/srctools/__init__.py (AtomicWriter) and bsp.py. Do not edit. *)',
-        'From Coq Require Import List String.', 'From SV Require Import SM.AtomicWriter SM.AtomicExit.', 'Import ListNotations.',
+        'From Coq Require Import List String.', 'From SV Require Import SM.AtomicWriter SM.AtomicExit SM.AtomicReuse.', 'Import ListNotations.',
         'Open Scope string_scope.',
         '(* AtomicWriter.__exit__, statement by statement (slots: ' + ', '.join(f'{k}={v}' for k, v in slot_names.items()) + ') *)',
         f'Definition aw_exit_prog : xstmt :=\n  {prog}.',
         '(* make_tempfile: every open mode is exclusive-create and FileExistsError is retried in the loop *)',
         f'Definition aw_excl : bool := {b(tf["excl"])}.',
-        'Definition aw_proto : xproto := proto_of_prog aw_excl aw_exit_prog.',
+        '(* the writer object across several `with` blocks: attribute slots mentioned by __exit__ (' +
+        ', '.join(f'{k}={v}' for k, v in zip(obj['attrs'], obj['names'])) + '), their values after __init__,',
+        '   what __enter__/make_tempfile assign on every successful entry, attributes assigned nowhere after __init__ *)',
+        'Definition aw_obj : wobj :=',
+        f'  {{| o_excl := aw_excl; o_prog := aw_exit_prog; o_attrs := [{"; ".join(map(str, obj["attrs"]))}];',
+        f'     o_init := [{"; ".join(opt(v) for v in obj["init"])}];',
+        f'     o_enter := [{"; ".join(f"({k}, {v})" for k, v in obj["enter"])}];',
+        f'     o_const := [{"; ".join(map(str, obj["const"]))}] |}}.',
+        '(* the exit protocol of the first use of a fresh object *)',
+        'Definition aw_proto : xproto := obj_proto aw_obj.',
         '(* the temp-name loop: first index, unbounded iterator (itertools.count), name template tmp_<i>, the',
         '   FileExistsError handler only passes, the loop is left only by the break after a successful open, the',
         '   destination itself is never used as its own temp file *)',
@@ -560,7 +1070,7 @@ def translate() -> tuple[str, dict]:
         '',
     ]
     side = dict(exit_prog=prog, exit_slots=slot_names, tempfile=tf, bsp={k: v for k, v in bsp.items()},
-                digests={n: ast_digest(f) for n, f in fns.items()}, writes_ok=writes_ok)
+                digests=raw_digests, writes_ok=writes_ok, obj=obj)
     return '\n'.join(lines), side
 
 
